@@ -125,7 +125,7 @@ pub fn run(cx: &mut Ctx) {
         crate::pipe_injoin::injoin_block(cx, &crate::pipe_injoin::combine_side_barriers(), cx.budget(3, 4), &xo);
         crate::pipe_wide::minmax_block(cx, &xo);
         crate::pipe_wide::wide_block(cx, &[W::CvSum, W::CvCount, W::CvTopk, W::CvUser, W::Lifted, W::LiftedRaw, W::Global, W::GlobalLifted, W::Distinct, W::DistinctPerKey, W::JoinGbkSides], cx.budget(12, 60), &xo);
-        crate::pipe_wide::many_keys_case(cx, vec![Step::CombineValues(Comb::Sum)], &[Mode::Seq, Mode::Par(200)]);
+        crate::pipe_wide::many_keys_case(cx, vec![Step::CombineValues(Comb::Sum)], &[Mode::Seq, Mode::Par(2), Mode::Par(200)]);
         crate::pipe_wide::many_keys_case(cx, vec![Step::Gbk, Step::CombineValuesLifted(Comb::Topk(2))], &[Mode::Seq, Mode::Par(256)]);
         user_combiner_block(cx, &xo);
         large_k_block(cx, &xo);
